@@ -638,3 +638,15 @@ func (v JV) toAny(useNumber bool) any {
 	}
 	return nil
 }
+
+// canonJSONDropNulls: canonJSON after removing object members that are null ("equal up to
+// omission of explicit nulls").
+func canonJSONDropNulls(raw []byte) string {
+	v, err := parseJV(raw)
+	if err != nil {
+		return "!invalid:" + string(raw)
+	}
+	var b strings.Builder
+	v.dropNulls().canon(&b)
+	return b.String()
+}
